@@ -6,6 +6,15 @@ mod fmtx;
 mod gen;
 mod mutate;
 mod nf;
+mod p_cli;
+mod p_import;
+mod p_indent;
+mod p_off;
+mod p_perf;
+mod p_pure;
+mod p_range;
+mod p_total;
+mod p_world;
 mod pools;
 mod props;
 mod report;
@@ -93,8 +102,12 @@ fn explore(args: &[String]) {
     let _ = Verdict::Inconclusive("x");
 }
 
+#[global_allocator]
+static GLOBAL: p_perf::CountingAlloc = p_perf::CountingAlloc;
+
 fn main() {
     fmtx::install_panic_hook();
+    let _ = rayon::ThreadPoolBuilder::new().stack_size(64 << 20).build_global();
     let args: Vec<String> = std::env::args().collect();
     match args.get(1).map(|s| s.as_str()) {
         Some("ast") => {
@@ -120,6 +133,14 @@ fn main() {
         Some("check") => {
             let code = props::check(&args[2], workload::Tier::parse(&args[3]));
             std::process::exit(code);
+        }
+        Some("worker-depth") => std::process::exit(p_total::worker_main(&args[2..])),
+        Some("worker-fmt") => std::process::exit(p_pure::worker_fmt_main(&args[2..])),
+        Some("stress") => {
+            let t: usize = args.get(2).map(|s| s.parse().unwrap()).unwrap_or(4);
+            let r: usize = args.get(3).map(|s| s.parse().unwrap()).unwrap_or(3);
+            let n: usize = args.get(4).map(|s| s.parse().unwrap()).unwrap_or(8);
+            std::process::exit(p_pure::stress_main(t, r, n));
         }
         Some("replay") => std::process::exit(props::replay(&args[2])),
         Some("triage") => props::triage(&args[2], workload::Tier::parse(args.get(3).map(|s| s.as_str()).unwrap_or("thorough"))),
